@@ -124,4 +124,15 @@ def run(out, tier, seed):
         for h in VIA:
             if h.startswith(("pickle", "copy", "deepcopy")) or n3_ok(t, h):
                 jobs.append({"cfg": {}, "events": [{"op": "via", "how": h, "a": t}]})
+    # the store's NodePickler, shared between terms: every ordered pair of pool terms that spell the same string
+    by = {}
+    for t in T:
+        by.setdefault(t["v"], []).append(t)
+    for v, ts in by.items():
+        for a in ts:
+            for b in ts:
+                if a is not b:
+                    jobs.append({"cfg": {}, "events": [{"op": "via", "how": "nodepickler", "first": a, "a": b}]})
+    for t in T[:: (3 if quick else 1)]:
+        jobs.append({"cfg": {}, "events": [{"op": "via", "how": "nodepickler", "first": t, "a": t}]})
     out.conform(__name__, TRACE, jobs, nontrivial=nontrivial, chunk=150, par=16, heap="2g")
